@@ -140,6 +140,20 @@ def _elementwise_op(expr):
     return '+' if isinstance(op, ast.Add) else '-' if isinstance(op, ast.Sub) else None
 
 
+def _resolve_local(fn, e):
+    """a local name with exactly one (single-name) assignment in fn stands for the assigned expression"""
+    for _ in range(3):
+        if not isinstance(e, ast.Name):
+            return e
+        defs = [n for n in walk_shallow(fn) if isinstance(n, (ast.Assign, ast.AnnAssign)) and n.value is not None
+                and any(isinstance(t, ast.Name) and t.id == e.id for t in (n.targets if isinstance(n, ast.Assign) else [n.target]))]
+        stores = [n for n in walk_shallow(fn) if isinstance(n, ast.Name) and n.id == e.id and isinstance(n.ctx, ast.Store)]
+        if len(defs) != 1 or len(stores) != 1:
+            return e
+        e = defs[0].value
+    return e
+
+
 def r162(ctx, ut):
     prog = ctx.prog
     ctx.rule('R16.2', 'operator wiring: __mul__ consults _mul with *, __truediv__ consults _div with /, SI combines signatures with +/-, reflected forms delegate')
@@ -193,7 +207,7 @@ def r162(ctx, ut):
         else:
             # SI: signature combination
             sig_assigns = [n for n in walk_shallow(fn) if isinstance(n, ast.Assign) and isinstance(n.targets[0], ast.Attribute) and n.targets[0].attr == '_sisig']
-            if len(sig_assigns) != 1 or _elementwise_op(sig_assigns[0].value) != sigop:
+            if len(sig_assigns) != 1 or _elementwise_op(_resolve_local(fn, sig_assigns[0].value)) != sigop:
                 problems.append((sig_assigns[0] if sig_assigns else fn,
                                  f'SI.{meth}: result signature is not the element-wise self {sigop} other of the operand signatures'))
         ok = not problems
@@ -225,10 +239,10 @@ def r164(ctx, ut):
     ctx.rule('R16.4', 'asSI copies float(self) and self.sisig(); as_quantity raises unless signatures are equal, before constructing')
     ci = prog.cls('Quantity')
     fn = prog.method('Quantity', 'asSI', inherited=False)
-    val_ok = any(isinstance(n, ast.Call) and unparse(n.func) == 'SI' and n.args and _is_float_of(n.args[0], 'self') and len(n.args) == 1
+    val_ok = any(isinstance(n, ast.Call) and unparse(n.func) == 'SI' and n.args and _is_float_of(_resolve_local(fn, n.args[0]), 'self') and len(n.args) == 1
                  for n in walk_shallow(fn))
     sig_ok = any(isinstance(n, ast.Assign) and isinstance(n.targets[0], ast.Attribute) and n.targets[0].attr == '_sisig'
-                 and unparse(n.value) in ('self.sisig()', 'type(self).sisig()', 'list(self.sisig())') for n in walk_shallow(fn))
+                 and unparse(_resolve_local(fn, n.value)) in ('self.sisig()', 'type(self).sisig()', 'list(self.sisig())') for n in walk_shallow(fn))
     ctx.ob('R16.4', 'Quantity.asSI', val_ok and sig_ok, sample=f'asSI: value copied {val_ok}, signature copied {sig_ok}')
     if not (val_ok and sig_ok):
         ctx.finding('R16.4', 'Quantity.asSI', ci, fn, 'asSI() does not build SI(float(self)) carrying self.sisig()', where='Quantity.asSI')
